@@ -326,6 +326,15 @@ class Interp:
             return self.const(ca ** cb)
         if ca == 2 and not b.signed:
             return self.i_shift_sym(self.const(1), b, True)
+        if ca is not None and ca >= 0 and len(b.bits) <= 4:
+            # constant base, small symbolic exponent (512 ** (3 - level)): a table over the exponent values; a negative
+            # exponent would make the result a float - that region maps to 0 and is left to the comparisons of the level
+            w = len(b.bits)
+            out = self.const(0)
+            for v in range((1 << (w - 1)) if b.signed else (1 << w)):
+                if ca ** v < (1 << MAXW):
+                    out = self.i_ite(self.i_eq(b, self.const(v)), self.const(ca ** v), out)
+            return out
         raise Unsupported('power with symbolic base')
 
     def i_mod(self, a, b):
